@@ -264,6 +264,9 @@ PURE_EXTERNAL = {
     "collections.Counter": lambda *a, **k: __import__("collections").Counter(*a, **k),
     "collections.deque": lambda *a, **k: __import__("collections").deque(*a, **k),
     "sys.getrecursionlimit": lambda: 1000,
+    "difflib.SequenceMatcher": lambda isjunk=None, a="", b="", autojunk=True: __import__("difflib").SequenceMatcher(None, a, b, autojunk),
+    "difflib.ndiff": lambda a, b, *r, **k: list(__import__("difflib").ndiff(list(a), list(b))),
+    "difflib.unified_diff": lambda a, b, *r, **k: list(__import__("difflib").unified_diff(list(a), list(b), *r, **k)),
     "difflib.get_close_matches": lambda w, poss, *a, **k: __import__("difflib").get_close_matches(str(w), [str(p_) for p_ in poss], *a, **k),
     "urllib.parse.urlparse": lambda u, *a, **k: __import__("urllib.parse").parse.urlparse(str(u), *a, **k),
     "urllib.parse.urlsplit": lambda u, *a, **k: __import__("urllib.parse").parse.urlsplit(str(u), *a, **k),
@@ -271,6 +274,23 @@ PURE_EXTERNAL = {
     "contextlib.closing": lambda thing: Obj("closing", thing=thing),
     "contextlib.suppress": lambda *excs: Obj("suppress", kinds=[getattr(e, "name", str(e)).rsplit(".", 1)[-1] for e in excs]),
 }
+def _math_fn(name):
+    import math as _m
+
+    def call(*a):
+        if not all(isinstance(x, (int, float, bool)) for x in a):
+            raise Raised("TypeError", f"must be real number, not {type(a[0]).__name__}" if a else "missing argument")
+        try:
+            return getattr(_m, name)(*a)
+        except (ValueError, OverflowError) as exc:
+            raise Raised(type(exc).__name__, str(exc))
+    return call
+
+
+for _n in ("isfinite", "isnan", "isinf", "ceil", "floor", "trunc", "sqrt", "log", "log2", "log10", "exp", "pow", "fabs", "copysign", "fmod", "gcd", "isclose", "prod", "fsum"):
+    PURE_EXTERNAL["math." + _n] = _math_fn(_n)
+
+
 def _accept_pathlike(fn):
     def wrapped(*a, **k):
         return fn(*[(str(x) if isinstance(x, _pathlib.PurePath) else x) for x in a], **k)
@@ -496,6 +516,13 @@ class PureInterp:
         self.index = ctx.index
         self.ev = ctx.ev
         self.hooks = hooks or {}  # canon name or "attr:<name>" -> callable(*args, **kwargs)
+        if "gwf.backends.utils.call" in self.hooks:
+            # a witness that answers for the scheduler answers whichever of the package's command runners is used (see Index.command_runners); what the
+            # witness' scheduler is not told is how long the caller is prepared to wait
+            h_ = self.hooks["gwf.backends.utils.call"]
+            for rn in ctx.index.command_runners():
+                if rn not in self.hooks:
+                    self.hooks[rn] = (lambda hh: lambda *a, **k: hh(*a, **{kk: v for kk, v in k.items() if kk == "input"}))(h_)
         self.events = []
         self.max_depth = max_depth
         self.steps = 0
@@ -1342,6 +1369,10 @@ class PureInterp:
                         return None
                 raise Raised("AttributeError", n.attr)
         if isinstance(o, FuncRef):
+            if n.attr in ("__name__", "__qualname__"):
+                return o.name.rsplit(".", 1)[-1]
+            if n.attr == "__module__":
+                return o.name.rsplit(".", 1)[0] if "." in o.name else "builtins"
             return FuncRef(o.name + "." + n.attr)
         if isinstance(o, ClassInfo):
             mth = self.index.method(o, n.attr)
@@ -1396,7 +1427,9 @@ class PureInterp:
             return getattr(o, n.attr)
         if type(o).__name__ in ("Element", "Match") and type(o).__module__ in ("xml.etree.ElementTree", "re") and not callable(getattr(o, n.attr, None)) and hasattr(o, n.attr):
             return getattr(o, n.attr)
-        if type(o).__module__ == "inspect" and type(o).__name__ in ("Signature", "Parameter") and n.attr in ("parameters", "name", "default", "kind", "annotation", "return_annotation", "empty"):
+        if type(o).__module__ == "difflib" and type(o).__name__ in ("SequenceMatcher", "Match") and hasattr(o, n.attr) and not n.attr.startswith("_"):
+            return getattr(o, n.attr)
+        if type(o).__module__ == "inspect" and type(o).__name__ in ("Signature", "Parameter") and n.attr in ("parameters", "name", "default", "kind", "annotation", "return_annotation", "empty", "POSITIONAL_ONLY", "POSITIONAL_OR_KEYWORD", "VAR_POSITIONAL", "KEYWORD_ONLY", "VAR_KEYWORD"):
             return dict(o.parameters) if n.attr == "parameters" else getattr(o, n.attr)
         if type(o).__module__ == "urllib.parse" and hasattr(type(o), "_fields") and n.attr in ("hostname", "port", "username", "password"):
             return getattr(o, n.attr)
@@ -1489,6 +1522,8 @@ class PureInterp:
             return True
         if isinstance(l, EnumVal) and isinstance(r, EnumVal):
             return l == r
+        if isinstance(l, FuncRef) and isinstance(r, FuncRef):
+            return l == r       # a function or class of a library is one object however often it is named
         if isinstance(l, (bool, type(None))) or isinstance(r, (bool, type(None))):
             return l is r
         return False
@@ -1766,6 +1801,8 @@ class PureInterp:
                     if isinstance(v0, EnumVal):
                         cls0 = self.index.lookup(v0.cls)
                         return cls0 if isinstance(cls0, ClassInfo) else Obj("type", __name__=v0.cls.rsplit(".", 1)[-1])
+                    if type(v0) in (int, float, str, bytes, bool, list, dict, tuple, set, frozenset, complex, bytearray):
+                        return FuncRef("builtins." + type(v0).__name__)      # the value the names `int`, `dict`, ... evaluate to: `type(x) is int` compares like in Python
                     return type(v0)
                 if b == "hasattr":
                     o = args[0]
